@@ -36,6 +36,8 @@ def make_source(rng, cont_only=False):
     text = c03.write_src(ts, F, v4)
     opts = reader_opts(rng, F) if rng.random() < 0.6 else {}
     opts.pop('brackets_emptypos', None)     # (needs tag-less tokens in the file; C01 covers it)
+    if 'gf_split' in opts and 'gf_separator' not in opts and rng.random() < 0.5:
+        opts['gf_separator'] = "-"          # the default separator, spelled out
     srcarg = c03.xsents(text) if F == "tigerxml" else proto.enc_s(text)
     return F, ts, text, opts, srcarg
 
@@ -207,7 +209,7 @@ def dest_words_case(rng):
         dwords.append("gf")
     if rng.random() < 0.5:
         dwords.append(rng.choice(["gf_separator:#", "gf_separator:=", "gf_separator:7", "gf_separator:007", "gf_separator", "gf_separator:::",
-                                  "gf_separator:-"]))
+                                  "gf_separator:-", "gf_separator:0", "gf_separator:00", "gf_separator:", "gf_separator:0"]))
         if rng.random() < 0.3:
             dwords.insert(0, "gf_separator:+")
     rng.shuffle(dwords) if rng.random() < 0.3 and not any(w.startswith("gf_separator") for w in dwords) else None
@@ -247,6 +249,12 @@ def cmd_case(rng):
     names = list(rng.choice(PIPES))
     if rng.random() < 0.2:
         names = names + list(rng.choice(PIPES))
+    if rng.random() < 0.3:
+        # a name given twice is applied twice (add_topnode is not idempotent: two TOP nodes)
+        for _ in range(2):
+            names.insert(rng.randint(0, len(names)), "add_topnode")
+    elif rng.random() < 0.15:
+        names.insert(rng.randint(0, len(names)), rng.choice(names))
     pw = []
     if "mark_heads_by_rules" in names or rng.random() < 0.1:
         pw.append(rng.choice(["mark_heads_preset:negra", "mark_heads_preset:negra", "mark_heads_preset:ptb", "mark_heads_preset:tiger",
